@@ -97,6 +97,25 @@ def run_cfg(chk, facts, cfg):
         except (Unsupported, NotReal) as e:
             chk.ob('%s:Paired::append_pair%s' % (PID, sfx), 'E3+E4', 'append_pair', None, 'undecided: %s' % e, where)
 
+    def frame_ok(initial_state, final_state, rec, c, apath, hav):
+        """final = initial (+) fold: alpha(final) - alpha(initial) == alpha(carried at exit) - alpha(carried at entry)."""
+        try:
+            fa = find_ariths(sm, final_state)
+            ia = find_ariths(sm, initial_state)
+            if len(fa) != 1 or len(ia) != 1:
+                return 'cannot locate the state before/after the call'
+            sub0 = {x: ZERO for x in sm.comps(hav)}
+            a_fin = sm.alpha(T.subst(fa[0][1], sub0))
+            a_ini = sm.alpha(ia[0][1])
+            a_hav = sm.alpha(T.subst(hav, sub0))
+            a_c0 = sm.alpha(get_at(rec['cell_init'][c], apath))
+            for x, y, u, v in zip(a_fin, a_ini, a_hav, a_c0):
+                if not nf.equal(nf.sub(nf.of_term(x), nf.of_term(y)), nf.sub(nf.of_term(u), nf.of_term(v))):
+                    return 'the state after the call is not the state before it plus the folded observations (earlier observations lost or counted twice)'
+        except (Unsupported, NotReal) as e:
+            return 'frame condition undecided: %s' % e
+        return None
+
     def paired_loop(key, where, sx, lockstep):
         """fold obligations for extend_tuple (one iterator of pairs) / extend (two iterators)."""
         if len(sx.loop_records) != 1:
@@ -150,12 +169,17 @@ def run_cfg(chk, facts, cfg):
                         probs.append('loop left other than by exhausting the pairs')
                 if not all(p.is_ret() and unwrap_ok(p.ret) is not None for p in paths):
                     probs.append('does not return Ok(())')
+                for p in paths:
+                    if p.is_ret() and p.effects.get('self') is not None:
+                        fr_ = frame_ok(pstate, p.effects['self'], rec, c, apath, hav)
+                        if fr_:
+                            probs.append(fr_)
                 chk.ob(key, 'T-fold', 'extend_tuple appends x - y for every pair (x, y), once', not probs, '; '.join(probs[:3]), where)
                 cnt['paired'] += 1
         except (Unsupported, NotReal) as e:
             chk.ob(key, 'T-fold', 'extend_tuple', None, 'undecided: %s' % e, where)
 
-    def check_lockstep(key, where, sx, paths, a_sym, b_sym, require_init_empty=False):
+    def check_lockstep(key, where, sx, paths, a_sym, b_sym, require_init_empty=False, initial_state=None):
         r = paired_loop(key, where, sx, True)
         if not r:
             return None
@@ -192,6 +216,10 @@ def run_cfg(chk, facts, cfg):
             if pat == ('None', 'None'):
                 if not (p.is_ret() and unwrap_ok(p.ret) is not None):
                     probs.append('equal lengths do not return Ok')
+                elif initial_state is not None and p.effects.get('self') is not None:
+                    fr_ = frame_ok(initial_state, p.effects['self'], rec, c, apath, hav)
+                    if fr_:
+                        probs.append(fr_)
                 continue
             if err_variant(facts, p.ret) != 'DifferentSampleSizes' or cnt_sym is None:
                 probs.append('length mismatch %s is not reported as DifferentSampleSizes' % (pat,))
@@ -233,7 +261,7 @@ def run_cfg(chk, facts, cfg):
         try:
             sx, paths = summ(f, ['self', 'a', 'b'], [by_ref(pstate), None, None])
             chk.saw(facts, f, paths=len(paths))
-            r = check_lockstep(key, where, sx, paths, A, B)
+            r = check_lockstep(key, where, sx, paths, A, B, initial_state=pstate)
             if r:
                 rec, hav, probs = r
                 chk.ob(key, 'T2-lockstep', 'extend appends a_i - b_i pair by pair; unequal lengths => DifferentSampleSizes(len a, len b), nothing appended afterwards',
